@@ -8,7 +8,7 @@
    finish-suppressing wrapper forwards everything but finish, and a hook
    without its own replace receives delete then insert. *)
 From Similar Require Import Model.Base Model.Utils Model.Myers Model.Lcs Model.Hooks Model.Compact Model.Capture
-  Spec.Script Spec.SnakeSpec Proofs.Replace Proofs.Compact Proofs.Main.
+  Spec.Script Spec.SnakeSpec Proofs.Replace Proofs.Compact Proofs.CompactEvents Proofs.Main.
 
 Theorem c08_myers_finish_last :
   forall (cmp : cmpf) (dl : deadline) (os oe ns ne : nat) (w0 w1 : plain),
@@ -56,6 +56,30 @@ Theorem c08_compact_hook :
     | Panic => Panic | OutOfFuel => OutOfFuel end.
 Proof. intros W. exact (@compact_hook_spec W). Qed.
 Print Assumptions c08_compact_hook.
+
+(* the same for ANY body of events without a finish, replace events included (they reach a Compact when the
+   adapters are nested the other way round or when Replace ops are replayed into it): a replace event counts as
+   delete + insert, the inner hook still sees nothing before finish and exactly one finish, last *)
+Theorem c08_compact_hook_events :
+  forall (W : Type) (wd : world W) (cmp : cmpf) (repair : bool) (body : list call) (w : W),
+    ~ In CFin body ->
+    emit_all (compact_world wd cmp repair) (body ++ [CFin]) ([], w) =
+    match cleanup_diff_ops cmp repair (capture_calls (expand_rep body)) with
+    | Ok ops' => match emit_all wd (map op_to_call ops' ++ [CFin]) w with
+                 | Ok w' => Ok (rev ops', w') | Panic => Panic | OutOfFuel => OutOfFuel end
+    | Panic => Panic | OutOfFuel => OutOfFuel end.
+Proof. intros W. exact (@compact_hook_events W). Qed.
+Print Assumptions c08_compact_hook_events.
+
+(* Replace on the outside of Compact: Compact receives exactly the trace of the Replace transducer *)
+Theorem c08_replace_over_compact :
+  forall (W : Type) (wd : world W) (cmp : cmpf) (repair dbg : bool) (cs : list call)
+         (s : rstate) (buf : list op) (w : W) (s' : rstate) (buf' : list op) (w' : W),
+    emit_all (replace_world (compact_world wd cmp repair) dbg) cs (s, (buf, w)) = Ok (s', (buf', w')) ->
+    exists out, replace_trace dbg cs s = (out, Some s')
+                /\ emit_all (compact_world wd cmp repair) out (buf, w) = Ok (buf', w').
+Proof. intros W. exact (@replace_over_compact W). Qed.
+Print Assumptions c08_replace_over_compact.
 
 (* NoFinishHook forwards everything except finish *)
 Theorem c08_no_finish_forwards :
